@@ -38,7 +38,7 @@ def pkgname(path):
     return out if out[0].isalpha() else "p" + out
 
 
-PATH_POOL = ["m/a", "m/b", "m/x/a", "m/v1.2/c", "m/d-e/f", "m/a/b", "m/x/b"]
+PATH_POOL = ["m/ab", "m/a", "m/b", "m/x/a", "m/v1.2/c", "m/d-e/f", "m/a/b", "m/x/b", "m/events"]
 
 
 def gen_lib_package(rng, ids, path, idx, earlier):
@@ -87,6 +87,18 @@ def gen_lib_package(rng, ids, path, idx, earlier):
     w("func (b *Box[V]) Get() V { println(%d); f := func() V { println(%d); return b.V }; return f() }" % (n("gmethod", "(*Box).Get"), n("closure", "(*Box).Get$1")))
     w("func (b Box[V]) Val() V { println(%d); return b.V }" % n("gmethod", "Box.Val"))
     w("func (p Pair[A, B]) First() A { println(%d); return p.A }\n" % n("gmethod", "Pair.First"))
+    # generic type with a VALUE-receiver method, a type that promotes it through an embedded generic type, a generic type
+    # forwarding a constraint method, zero-sized package variables
+    w("type Sq[A any] struct{ X, Y A }")
+    w("func (s Sq[A]) Sum() int { println(%d); return %d }" % (n("gmethod", "Sq.Sum"), 50 + idx))
+    w("type Emb[A any] struct{ Sq[A] }")
+    w("type HasM interface{ M() int }")
+    w("type Fwd[V HasM] struct{ V V }")
+    w("func (f Fwd[V]) M() int { println(%d); return f.V.M() + 1 }" % n("gmethod", "Fwd.M"))
+    w("func CallM[X HasM](x X) int { println(%d); return x.M() }" % n("generic", "CallM"))
+    w("type Summer interface{ Sum() int }")
+    w("var Z struct{}")
+    w("var E [0]int\n")
     # uses: instantiate generics of this and of earlier packages with local / aliased / composite type arguments
     w("type AL = L\n")
     w("func Use() int {")
@@ -99,6 +111,21 @@ def gen_lib_package(rng, ids, path, idx, earlier):
     w("\tx += Gen[Box[L]](Box[L]{11}).V.int2()")
     if rng.random() < 0.7:
         w("\tx += int(Gen[struct{ A L }](struct{ A L }{12}).A) + Gen[func() int](F)()")
+    # two function-local types with the same identifier, nested inside another generic type
+    w("\ttype Rec struct{ T }")
+    w("\tx += CallM[Fwd[Rec]](Fwd[Rec]{V: Rec{T{X: 1}}}) + CallM[Fwd[Fwd[Rec]]](Fwd[Fwd[Rec]]{})")
+    w("\t{\n\t\ttype Rec struct{ U }\n\t\tx += CallM[Fwd[Rec]](Fwd[Rec]{V: Rec{U{X: 1}}}) + CallM[Fwd[Fwd[Rec]]](Fwd[Fwd[Rec]]{})\n\t}")
+    for (p, al) in imps:
+        w("\tx += %s.CallM[%s.Fwd[Rec]](%s.Fwd[Rec]{V: Rec{T{X: 2}}})" % (al, al, al))
+        w("\t{\n\t\ttype Rec struct{ U }\n\t\tx += %s.CallM[%s.Fwd[Rec]](%s.Fwd[Rec]{V: Rec{U{X: 2}}})\n\t}" % (al, al, al))
+        # instantiations the declaring package does not make, boxed into an interface only here
+        w("\t{")
+        w("\t\tvar s1 %s.Summer = &%s.Sq[L]{}" % (al, al))
+        w("\t\tvar s2 %s.Summer = %s.Emb[L]{}" % (al, al))
+        w("\t\tvar s3 %s.Summer = &%s.Emb[T]{}" % (al, al))
+        w("\t\tx += s1.Sum() + s2.Sum() + s3.Sum()")
+        w("\t}")
+        w("\tif pz, pe := &%s.Z, &%s.E; pz == nil || pe == nil {\n\t\tx++\n\t}" % (al, al))
     for (p, al) in imps:
         w("\tx += %s.Gen[int](13) + int(%s.Gen[L](14)) + int(%s.Gen[%s.L](15)) + int(%s.Gen[Loc](16))" % (al, al, al, al, al))
         w("\tx += (&%s.Box[int]{17}).Get() + int((&%s.Box[L]{18}).Get()) + int(%s.Box[%s.L]{19}.Val())" % (al, al, al, al))
@@ -112,7 +139,8 @@ def gen_lib_package(rng, ids, path, idx, earlier):
 
 def gen_main_program(rng, npk=3):
     ids = Ids()
-    paths = ["m/a"] + rng.sample(PATH_POOL[1:], npk - 1)
+    # "m/ab" first, then "m/a" (which imports it): import paths that are string prefixes of one another (also "m" of all)
+    paths = ["m/ab", "m/a"] + rng.sample(PATH_POOL[2:], max(0, npk - 2))
     files = {}
     order = []
     earlier = []
@@ -139,6 +167,7 @@ def gen_main_program(rng, npk=3):
         w("\tprintln(%s.F(), %s.K(), %s.T{X: 1}.M(), %s.U{X: 2}.M(), (&%s.T{X: 3}).P(), (&%s.U{X: 4}).P(), %s.G, %s.H)" % ((al,) * 8))
         w("\tprintln(%s.Use())" % al)
         w("\tprintln(call(%s.F), call(%s.K))" % (al, al))
+        w("\t{\n\t\tvar s1 %s.Summer = &%s.Sq[T]{}\n\t\tvar s2 %s.Summer = %s.Emb[T]{}\n\t\tvar s3 %s.Summer = &%s.Emb[W]{}\n\t\tprintln(s1.Sum(), s2.Sum(), s3.Sum(), &%s.Z != nil, &%s.E != nil)\n\t}" % ((al,) * 8))
         w("\tprintln(%s.Gen[int](1), %s.Gen[T](T{2}).X, %s.Gen[%s.T](%s.T{X: 3}).X, (&%s.Box[T]{T{4}}).Get().X, %s.Gen2[T, %s.T](T{5}, %s.T{X: 6}).First().X)" % ((al,) * 9))
     # bound methods / method expressions / interface thunks: pairwise different (receiver name, method) in this package
     a0 = earlier[0][1]
